@@ -49,19 +49,48 @@ theorem findByCand_mem {items : List (Match E L)} {e : E} {x : Match E L}
   unfold findByCand at h
   exact ⟨List.mem_of_find?_eq_some h, by simpa using List.find?_some h⟩
 
-/-- **Master theorem (entries).**  A predicate `R` on candidate entries that holds for every
-    accepted probe result and every prepared fallback entry holds for every candidate of every match
-    `from_bytes` returns on non-empty input. -/
-theorem fromBytes_entries {W : World E L} {T : Tables E} {sort : Sorter E L}
-    (hperm : ∀ l, (sort l).Perm l) (R : Sub E L → Prop) {b : Bytes} {s : Settings}
+theorem mem_rotateFront {pe x : E} {l : List E} (h : x ∈ rotateFront pe l) : x ∈ l := by
+  unfold rotateFront at h
+  split at h
+  · rename_i hc
+    simp only [List.mem_cons] at h
+    rcases h with rfl | h
+    · simpa using hc
+    · exact List.mem_of_mem_erase h
+  · exact h
+
+theorem mem_probeOrder {supported prio : List E} {x : E} (h : x ∈ probeOrder supported prio) :
+    x ∈ supported := by
+  unfold probeOrder at h
+  induction prio with
+  | nil => simpa using h
+  | cons p ps ih =>
+    simp only [List.foldr_cons] at h
+    exact ih (mem_rotateFront h)
+
+theorem append_nil {sort : Sorter E L} (hperm : ∀ l, (sort l).Perm l) {tooBig : Nat} (fb : Match E L) :
+    append sort tooBig [] fb = [fb] := by
+  unfold append
+  have : (if fb.raw.length ≤ tooBig then mergeInto fb ([] : List (Match E L)) else none) = none := by
+    split <;> simp [mergeInto]
+  rw [this]
+  have := hperm ([] ++ [fb])
+  simpa using this
+
+/-- **Master theorem (entries).**  `Racc` holds for every accepted probe result, `Rfb` for every
+    prepared fallback entry.  Then on non-empty input either every candidate of every returned match
+    satisfies `Racc`, or the result is a single fallback match (nothing was accepted) satisfying `Rfb`. -/
+theorem fromBytes_entries2 {W : World E L} {T : Tables E} {sort : Sorter E L}
+    (hperm : ∀ l, (sort l).Perm l) (Racc Rfb : Sub E L → Prop) {b : Bytes} {s : Settings}
     {incl excl : List E}
     (hincl : canonList T.ianaName s.incl = .ok incl) (hexcl : canonList T.ianaName s.excl = .ok excl)
-    (hacc : ∀ soft e m, allowed incl excl e = true →
-      ProbeShape W T (ctxOf T b s) soft e (.accepted m) → R m.toSub)
-    (hfb : ∀ soft e fb, allowed incl excl e = true →
-      ProbeShape W T (ctxOf T b s) soft e (.softFail (some fb)) → R fb.toSub)
+    (hacc : ∀ soft e m, e ∈ T.supported → allowed incl excl e = true →
+      ProbeShape W T (ctxOf T b s) soft e (.accepted m) → Racc m.toSub)
+    (hfb : ∀ soft e fb, e ∈ T.supported → allowed incl excl e = true →
+      ProbeShape W T (ctxOf T b s) soft e (.softFail (some fb)) → Rfb fb.toSub)
     {ms : List (Match E L)} (hb : b ≠ [])
-    (h : fromBytes W T sort b s = .ok (.ok ms)) : ∀ m ∈ ms, m.AllEntries R := by
+    (h : fromBytes W T sort b s = .ok (.ok ms)) :
+    (∀ m ∈ ms, m.AllEntries Racc) ∨ (∃ fb, ms = [fb] ∧ fb.AllEntries Rfb ∧ fb.subs = []) := by
   have hsubs_acc : ∀ soft e m, ProbeShape W T (ctxOf T b s) soft e (.accepted m) → m.subs = [] := by
     intro soft e m hp
     cases hp with
@@ -84,53 +113,77 @@ theorem fromBytes_entries {W : World E L} {T : Tables E} {sort : Sorter E L}
     exact absurd (by simpa using he) hb
   · -- the loop
     let Inv : List E → LoopState E L → Prop := fun _ st =>
-      (∀ m ∈ st.results, m.AllEntries R) ∧ st.SlotsAll (fun m => m.AllEntries R)
+      (∀ m ∈ st.results, m.AllEntries Racc) ∧
+        st.SlotsAll (fun m => m.AllEntries Rfb ∧ m.subs = [])
     let Q : Outcome E L → Prop := fun o =>
       match o with
-      | .exit x => x.AllEntries R
-      | .done st => (∀ m ∈ st.results, m.AllEntries R) ∧ st.SlotsAll (fun m => m.AllEntries R)
+      | .exit x => x.AllEntries Racc
+      | .done st => (∀ m ∈ st.results, m.AllEntries Racc) ∧
+          st.SlotsAll (fun m => m.AllEntries Rfb ∧ m.subs = [])
     have key : ∀ out, detectLoop W T sort (ctxOf T b s) incl excl
         (probeOrder T.supported (prioritized T b s.preemptive)) {} = .ok out → Q out := by
       intro out hout
       refine detectLoop_rule (W := W) (T := T) (sort := sort) (c := ctxOf T b s) (incl := incl) (excl := excl)
-        Inv Q ?_ ?_ ?_ ?_ _ [] {} out ?_ hout
-      · intro done st e hinv _; exact hinv
-      · intro done st e fb hinv hal hp
+        Inv Q (fun e => e ∈ T.supported) ?_ ?_ ?_ ?_ _ [] {} out ?_ ?_ hout
+      · intro done st e _ hinv _; exact hinv
+      · intro done st e fb hS hinv hal hp
         refine ⟨by rw [softUpdate_results]; exact hinv.1, softUpdate_slots _ hinv.2 ?_⟩
         intro m hm; subst hm
-        refine ⟨hfb _ e m hal hp, ?_⟩
+        refine ⟨⟨hfb _ e m hS hal hp, ?_⟩, hsubs_fb _ e m hp⟩
         rw [hsubs_fb _ e m hp]; simp
-      · intro done st e m hinv hal hp
-        have hitem : m.AllEntries R := ⟨hacc _ e m hal hp, by rw [hsubs_acc _ e m hp]; simp⟩
-        have hall := append_allEntries hperm (tooBig := T.tooBig) R hinv.1 hitem
+      · intro done st e m hS hinv hal hp
+        have hitem : m.AllEntries Racc := ⟨hacc _ e m hS hal hp, by rw [hsubs_acc _ e m hp]; simp⟩
+        have hall := append_allEntries hperm (tooBig := T.tooBig) Racc hinv.1 hitem
         refine ⟨fun _ => ⟨hall, hinv.2⟩, ?_⟩
         intro _ x hx
         exact hall x (findByCand_mem hx).1
       · intro done st hinv; exact hinv
+      · intro e he; exact (mem_probeOrder he)
       · exact ⟨by simp, by simp [LoopState.SlotsAll]⟩
     split at h
     · cases h
     · rename_i x hx
       cases h
       have := key _ hx
+      left
       intro m hm
       simp only [List.mem_singleton] at hm
       subst hm; exact this
     · rename_i st hst
       cases h
       have hq := key _ hst
-      intro m hm
-      unfold finish at hm
-      split at hm
-      · split at hm
+      unfold finish
+      split
+      · rename_i hemp
+        split
         · rename_i fb hfbp
-          have hfbAll : fb.AllEntries R := by
+          have hfbAll : fb.AllEntries Rfb ∧ fb.subs = [] := by
             rcases pickFallback_mem hfbp with h1 | h1 | h1
             · exact hq.2.2.2 fb h1
             · exact hq.2.2.1 fb h1
             · exact hq.2.1 fb h1
-          exact append_allEntries hperm R hq.1 hfbAll m hm
-        · simp at hm
-      · exact hq.1 m hm
+          right
+          have he : st.results = [] := by simpa using hemp
+          rw [he, append_nil hperm]
+          exact ⟨fb, rfl, hfbAll.1, hfbAll.2⟩
+        · left; simp
+      · left; exact hq.1
+
+/-- single-predicate corollary -/
+theorem fromBytes_entries {W : World E L} {T : Tables E} {sort : Sorter E L}
+    (hperm : ∀ l, (sort l).Perm l) (R : Sub E L → Prop) {b : Bytes} {s : Settings}
+    {incl excl : List E}
+    (hincl : canonList T.ianaName s.incl = .ok incl) (hexcl : canonList T.ianaName s.excl = .ok excl)
+    (hacc : ∀ soft e m, e ∈ T.supported → allowed incl excl e = true →
+      ProbeShape W T (ctxOf T b s) soft e (.accepted m) → R m.toSub)
+    (hfb : ∀ soft e fb, e ∈ T.supported → allowed incl excl e = true →
+      ProbeShape W T (ctxOf T b s) soft e (.softFail (some fb)) → R fb.toSub)
+    {ms : List (Match E L)} (hb : b ≠ [])
+    (h : fromBytes W T sort b s = .ok (.ok ms)) : ∀ m ∈ ms, m.AllEntries R := by
+  rcases fromBytes_entries2 hperm R R hincl hexcl hacc hfb hb h with h1 | ⟨fb, rfl, h2, _⟩
+  · exact h1
+  · intro m hm
+    simp only [List.mem_singleton] at hm
+    subst hm; exact h2
 
 end Charset
